@@ -27,6 +27,7 @@ RULE = ("plan = object of one of the four classes (Vector of any kind, DataFrame
         "geometry cells render as <Type>. Non-trivial: ≥ 2 columns wrapping into ≥ 2 blocks, or a wide/combining character, "
         "or rows cut, or a 0-row / 0-column shape. Distinct = plan hash.")
 CASES = {"quick": 1000, "thorough": 6000}
+FUZZ_RUNS = {"thorough": 20000}     # coverage-guided leg, 8 processes (vlib/fuzz.py)
 
 WIDE = ["日本", "한글", "ａｂ", "é", "a​b", "😀", "ﬁ", "İ"]
 MULTI = ["l\nm", "first\nsecond line", "\nlead"]
